@@ -39,7 +39,7 @@ def build(case):
         # the documented grid graph, built by the library's own helper, given explicitly
         fn(s, a, graph._grid_graph(h, w))
         return s, list(a)
-    g = gcheck.make_graph(case["n"], case["edges"])
+    g = gcheck.make_graph(case["n"], case["edges"], case.get("grown"))
     a = s.bool_array(case["n"])
     if case.get("aslist") and not case["seg"]:
         fn(s, list(a), g)
@@ -150,6 +150,11 @@ def prepare(tier):
     global _CASES
     base_cases = cases_for(tier)
     used = [dict(c, used=True) for c in base_cases[:: (7 if tier == "quick" else 3)] if _small(c)]
+    # Graph objects with a history: some edges added only after the object has been used by other constraints
+    for c in base_cases[:: (5 if tier == "quick" else 2)]:
+        if "edges" in c and "shape" not in c and 2 <= len(c["edges"]) <= 5 and c.get("n", 9) <= 4:
+            used.append(dict(c, grown=1))
+            used.append(dict(c, grown=len(c["edges"]) - 1))
     _CASES = base_cases + used
     return _CASES
 
